@@ -7,7 +7,7 @@ from . import irv_common as I
 
 class C17(Prop):
     layouts = True
-    translators = ['elicitor', 'bsearch', 'flow', 'irvsmall', 'thrrules', 'mwcs', 'irvscf', 'irvposet', 'irvinit', 'irvrot', 'irvall', 'irvpipe']   # Elicitor, the two-sided binary_search and ford_fulkerson / dfs_path (used by Irving's closed-subset step) regenerated from the source on every run
+    translators = ['elicitor', 'bsearch', 'flow', 'irvsmall', 'thrrules', 'mwcs', 'irvscf', 'irvposet', 'irvinit', 'irvrot', 'irvall', 'irvpipe', 'elicitclasses']   # Elicitor, the two-sided binary_search and ford_fulkerson / dfs_path (used by Irving's closed-subset step) regenerated from the source on every run
     pid = "C17"
     sources = ["socialchoicekit/elicitation_matching.py", "socialchoicekit/deterministic_matching.py"]
     groups = {"dbl": Group("dbl", "From SCK Require Import ElicitM Irving RunDouble.", "RunDouble.double_case", "RunDouble.chk_double", shard=10),
